@@ -13,7 +13,7 @@ from engine import Stage, Check
 
 PID = "C10"
 DEFAULT_PORTS = {443, 44330}
-PORT_POOL = [443, 44330, 8443, 4433, 9443, 853, 993, 5061, 10443, 1443, 8080, 8081, 50000, 61000]     # incl. the default target 8080 and a usual map target
+PORT_POOL = [443, 44330, 8443, 4433, 9443, 853, 993, 5061, 10443, 1443, 8080, 8081, 50000, 61000, 65535, 1]     # incl. the default target 8080 and a usual map target
 
 
 def model(opts, sport):
@@ -110,7 +110,7 @@ def spec_strategy(draw):
         srcs = draw(st.lists(st.sampled_from(PORT_POOL), min_size=1, max_size=4, unique=True))
         comma = draw(st.booleans())
         # targets: usual ones, the source port itself (identity pair), another source port of the list
-        opts["m"] = [f"{a}:{draw(st.sampled_from([8080, 8081, 8088, 80, 9000, 18443, a, a, srcs[0]]))}" + ("," if comma and j < len(srcs) - 1 else "")
+        opts["m"] = [f"{a}:{draw(st.sampled_from([8080, 8081, 8088, 80, 9000, 18443, 65535, 1, a, a, srcs[0]]))}" + ("," if comma and j < len(srcs) - 1 else "")
                      for j, a in enumerate(srcs)]
     else:
         opts["m"] = None
